@@ -22,6 +22,9 @@ var invoiceCorrectionDefinitions = tax.CorrectionSet{
 func normalizeInvoice(inv *bill.Invoice) {
 	// Try to move any preceding choices to the document level
 	for _, row := range inv.Preceding {
+		if row == nil {
+			continue
+		}
 		if len(row.Ext) == 0 {
 			continue
 		}
